@@ -120,9 +120,19 @@ def main():
             h = by_name[r["name"]]
             path = write_replay(prop, "kani", {"name": r["name"], "concrete_vals": r["concrete_vals"],
                                                "failed": r.get("unexpected", []), "log": r["log"]})
-            rep = kanirun.replay_native(r["name"], r["concrete_vals"], timeout=60 if h.termination else 120)
+            # every failed check has its own recorded values: replay them in turn until one reproduces
+            candidates = [pb["vals"] for pb in r.get("playbacks", [])] or [r["concrete_vals"]]
+            seen, rep, reproduced = [], {}, False
+            for vals in candidates[:6]:
+                if vals in seen:
+                    continue
+                seen.append(vals)
+                rep = kanirun.replay_native(r["name"], vals, timeout=60 if h.termination else 120)
+                reproduced = any(v["outcome"] == "reproduced" for v in rep.values())
+                if reproduced:
+                    write_replay(prop, "kani", {"name": r["name"], "concrete_vals": vals, "failed": r.get("unexpected", []), "log": r["log"]})
+                    break
             replays.append({"name": r["name"], "replay": rep})
-            reproduced = any(v["outcome"] == "reproduced" for v in rep.values())
             if reproduced:
                 violations.append({"name": r["name"], "reason": r["reason"], "replay": path,
                                    "profiles": {p: v["outcome"] for p, v in rep.items()}})
